@@ -149,7 +149,7 @@ fn class_of(v: &str) -> &'static str {
 
 pub fn bounds(tier: Tier) -> Value {
     match tier {
-        Tier::Quick => json!({"value_len": 2, "alphabet": 14, "special_values": 8, "positions": 2, "wrappers": 8}),
+        Tier::Quick => json!({"value_len": 3, "alphabet": 14, "special_values": 8, "positions": 2, "wrappers": 8}),
         Tier::Thorough => json!({"value_len": 4, "alphabet": 14, "special_values": 8, "positions": 2, "wrappers": 8}),
     }
 }
@@ -159,7 +159,7 @@ pub fn worker(w: &mut Worker) {
     w.risky = true;
     w.set_case_limit_ms(5_000);
     let rig = Rig::new();
-    let vl = tier.pick(2usize, 4usize);
+    let vl = tier.pick(3usize, 4usize);
     let mut values: Vec<String> = Strings::new(&SIGMA[..], 0, vl).map(|v| v.concat()).collect();
     for s in SPECIAL {
         values.push(s.to_string());
